@@ -108,6 +108,15 @@ pub fn apply(ws: &mut Workspace, op: &J) -> J {
 /// extension, text that is no XML, XML that is no DMN model, an empty file), `Workspace::new(Some(dir))` is called and the
 /// directory removed. The event names the candidates: the models written into `*.dmn` files.
 fn load_dir(ms: &[String]) -> (Workspace, J) {
+  let dir = write_model_dir(ms);
+  let ws = crate::util::silenced(|| Workspace::new(Some(dir.clone())));
+  let _ = std::fs::remove_dir_all(&dir);
+  let ev = observe(&ws, json!({"ev": "load", "cands": ms}), "ok");
+  (ws, ev)
+}
+
+/// Writes the directory described at `load_dir` and returns its path (the caller removes it).
+pub fn write_model_dir(ms: &[String]) -> std::path::PathBuf {
   static N: std::sync::atomic::AtomicUsize = std::sync::atomic::AtomicUsize::new(0);
   let base = std::path::PathBuf::from(std::env::var("VERIF_DIR").unwrap_or_else(|_| "/verif".to_string())).join("work/C17/dirs");
   let dir = base.join(format!("d{}_{}", std::process::id(), N.fetch_add(1, std::sync::atomic::Ordering::Relaxed)));
@@ -132,10 +141,7 @@ fn load_dir(ms: &[String]) -> (Workspace, J) {
   put("sub/broken.dmn", "<definitions");
   put("other.dmn", "<?xml version=\"1.0\"?><html><body/></html>");
   put("empty.dmn", "");
-  let ws = crate::util::silenced(|| Workspace::new(Some(dir.clone())));
-  let _ = std::fs::remove_dir_all(&dir);
-  let ev = observe(&ws, json!({"ev": "load", "cands": ms}), "ok");
-  (ws, ev)
+  dir
 }
 
 pub fn run_path(path: &[J]) -> Vec<J> {
@@ -278,12 +284,12 @@ pub fn check(mut ctx: Ctx, replay: Option<J>) -> ! {
     let spec = ctx.verif.join("spec");
     let out = ctx.verif.join("work/C17/apalache");
     let (base, t0) = crate::tlc::apalache(&spec, &out, "Apa_Workspace", &["--cinit=ConstInit", "--init=Init", "--inv=IndInv", "--length=0"], 600);
-    let (step, t1) = if base == Some(true) { crate::tlc::apalache(&spec, &out, "Apa_Workspace", &["--cinit=ConstInit", "--init=IndInit", "--inv=IndInv", "--length=1"], 900) } else { (None, String::new()) };
+    let (step, t1) = if base == Some(true) { crate::tlc::apalache(&spec, &out, "Apa_Workspace", &["--cinit=ConstInit", "--init=IndInit", "--next=NextL", "--inv=IndInv", "--length=1"], 900) } else { (None, String::new()) };
     if base == Some(false) || step == Some(false) {
       tool_error(&format!("Apalache found the invariants of Workspace not inductive: {}", if base == Some(false) { t0 } else { t1 }.lines().rev().take(12).collect::<Vec<_>>().join(" | ")));
     }
     if base == Some(true) && step == Some(true) {
-      ctx.cov("apalache_inductive_invariant", json!("Inv and AddableIff are inductive for every alphabet of models over 3 identifiers x 3 namespaces x 3 names x builds/fails (Init => IndInv; IndInv and Next => IndInv')"));
+      ctx.cov("apalache_inductive_invariant", json!("Inv and AddableIff are inductive for every alphabet of models over 3 identifiers x 3 namespaces x 3 names x builds/fails (Init => IndInv; IndInv and NextL => IndInv', NextL = the operations and a restart on a directory)"));
     } else {
       ctx.cov("apalache_inductive_invariant", json!(format!("not established in this run: {} {}", t0.chars().take(200).collect::<String>(), t1.chars().take(200).collect::<String>())));
     }
